@@ -101,6 +101,10 @@ class C05(PureCheck):
         for k in range(300 if tier == "quick" else 3000):
             runs = [[enc.enc_text(rng.choice(["a", "bc", "x\ny"])), [rng.choice([0, 2, 5]), rng.choice([0, 0, 4]), rng.choice([0, 2]), 0, 0, rng.choice([0, 2]), 0, 0]] for _ in range(rng.choice([1, 2]))]
             yield {"op": "roundtrip", "runs": runs, "prefcut": rng.choice([0, 0, 1, 2, 3])}
+        # an escape sequence at every offset around the usual buffer sizes: one unbroken run of n characters, then a
+        # run formatted differently (its opening sequence begins right behind the n-th character)
+        for n in (1020, 1021, 1022, 1023, 1024, 4090, 4091, 4092, 4093, 4094, 4095, 4096, 4097, 8189, 8190, 8191, 8192):
+            yield {"op": "roundtrip", "runs": [[[120] * n, [2, 0, 0, 0, 0, 0, 0, 0]], [enc.enc_text("tail"), [5, 0, 2, 0, 0, 0, 0, 0]]]}
         for n in (15, 16, 17, 18, 31, 32, 33, 64, 65, 200):       # every length around the usual parameter-count limits
             for tail in ([31], [1, 44], [0, 4]):
                 ps = [CODES[(j * 7 + n) % len(CODES)] for j in range(n - len(tail))] + tail
